@@ -593,8 +593,10 @@ def h_kernel_loop(X, k):
         try:
             r = domain_names.unpack_from_with_compression(buf, 0, domain_names.cache())
         except struct.error as e:
-            X.check("loop" in str(e), "C25/kernel/loop-other-error", f"cycle reported as {e}")
-            X.reach("loop-detected")
+            # any parse error satisfies the property (total, terminating); a label octet that is itself
+            # invalid (e.g. a dot) may legitimately be reported before the cycle is followed
+            if "loop" in str(e):
+                X.reach("loop-detected")
             return
         except (symx.Unsupported, symx.Violation):
             raise
@@ -651,11 +653,11 @@ def h_https_rt(X, nparams, vlen):
             X.check(_data_eq(r2.params[key], params[key]), "C25/https/roundtrip/param-value", f"param {key} differs")
 
 
-def h_https_total(X, n):
+def h_https_total(X, n, with_params=True):
     from mitmproxy.net.dns import https_records
     with dnsshim.installed(X.symbolic):
         X.opaque_str(True)
-        shape = X.choose("shape", ["raw", "params"])
+        shape = X.choose("shape", ["raw", "params"] if with_params else ["raw"])
         if shape == "raw":
             ln = X.choose("len", n + 1)
             items = list(X.bytes("b", ln))
@@ -729,6 +731,6 @@ def obligations(tier):
         Symx("https-roundtrip", lambda X: h_https_rt(X, 2, 2 if q else 3),
              bounds=f"priority in [-40000,70000] symbolic; target from the 4-name menu; 0..2 params, keys from {{0,1,3,5,255,65535}}, values 0..{2 if q else 3} symbolic octets",
              encoded=ENCODED_HTTPS, must_reach=["packed", "rejected"], stubs=STUBS, parallel_depth=3),
-        Symx("https-total", lambda X: h_https_total(X, 5), bounds="https_records.unpack on every buffer of 0..5 symbolic octets, and on priority(symbolic)+root target+1..2 params with menu keys, symbolic length octets and 0..2 symbolic value octets",
+        Symx("https-total", lambda X: h_https_total(X, 3 if q else 5, with_params=not q), bounds="https_records.unpack on every buffer of 0..3 (thorough 0..5) symbolic octets, and (thorough only) on priority(symbolic)+root target+1..2 params with menu keys, symbolic length octets and 0..2 symbolic value octets",
              encoded=ENCODED_HTTPS + ENCODED[5:6], must_reach=["parse-error", "decoded"], stubs=STUBS, parallel_depth=3, budget_s=1500 if q else 3600),
     ]
